@@ -4,6 +4,7 @@ import Qryn.Proofs.InternalJsonPath
 import Qryn.Proofs.InternalParams
 import Qryn.Proofs.InternalCompose
 import Qryn.Proofs.InternalEndToEnd
+import Qryn.Proofs.InternalPathSyntax
 import Qryn.Read.JsonPathSyntax
 import Qryn.LogQL.PostMetric
 import Qryn.Gen.InternalPlanner
@@ -214,6 +215,51 @@ theorem jsonParams_repeated_name_document_order :
     let ps : List Ahead := [([112], [.key [97]]), ([112], [.key [98]])]
     jsonParams true ps doc [] = [([112], [50])] ∧ jsonPathLabels true ps doc [] = [([112], [50])] ∧
     jsonParamLabels true ps doc [] = [([112], [49])] := by decide
+
+/-- **`JsonPathParamToTypedArray`, exact characterisation** (on the texts of the modelled token syntax): the model returns a
+    typed path exactly for the texts whose tokens the grammar of path_parser.go derives — `Path = Part+`,
+    `Part = "."? Ident | "[" (String | RawString) "]" | "[" Int "]"`, as the derivation relation `Read.Parts` — and the
+    path is the one the derivation denotes (identifier / unquoted string ↦ key, integer ↦ index); every other text of the
+    fragment is a parse error, texts outside the fragment are `outside` (reported apart by the `path` stream, which runs
+    the real parser on the same texts). The grammar is unambiguous: the typed path is a function of the text. -/
+theorem parsePath_characterised (text : Bytes) (p : List PathSeg) :
+    parsePath text = .ok p ↔ ∃ ts, ptoks text.length text = some ts ∧ Parts ts p ∧ p ≠ [] := by
+  unfold parsePath
+  cases ht : ptoks text.length text with
+  | none => simp
+  | some ts =>
+    simp only [Option.some.injEq, exists_eq_left']
+    cases hp : pparts ts [] with
+    | none =>
+      constructor
+      · intro h; cases h
+      · intro h
+        have := (pparts_iff ts p).mpr h
+        rw [hp] at this
+        cases this
+    | some q =>
+      constructor
+      · intro h
+        have hq : q = p := PathParse.ok.inj h
+        subst hq
+        exact (pparts_iff ts q).mp hp
+      · intro h
+        have := (pparts_iff ts p).mpr h
+        rw [hp] at this
+        rw [Option.some.inj this]
+
+/-- **round trip**: every non-empty typed path — keys of printable ASCII without `"`, `\`, `` ` ``, indexes below 10¹⁸ —
+    is written by the parameter text `printPath p` (`["key"][7]…`), and the parser reads exactly `p` back: the parser is
+    onto the typed paths the in-process walk (`jppVal`) and the ClickHouse planner (`toJArg`) are defined on -/
+theorem parsePath_roundtrip (p : List PathSeg) (hne : p ≠ []) (hp : ∀ s ∈ p, SegOk s) :
+    parsePath (printPath p) = .ok p := parsePath_printPath p hne hp
+
+/-- `["a b"][10][0]` -/
+example : printPath [.key [97, 32, 98], .idx 10, .idx 0] = [91, 34, 97, 32, 98, 34, 93, 91, 49, 48, 93, 91, 48, 93] ∧
+    parsePath (printPath [.key [97, 32, 98], .idx 10, .idx 0]) = .ok [.key [97, 32, 98], .idx 10, .idx 0] := by
+  constructor
+  · decide
+  · decide
 
 /-- which parsers the in-process engine has: `json` and `logfmt`; `regexp`, `pattern`, `unpack` are answered
     `NotSupported` (the switch of `ParserPlanner.Process`, regenerated) -/
